@@ -157,10 +157,12 @@ Judge(a) ==
                      \/ (HasBody(u) /\ ~(pos[u.bodyStart] < pos[u.bodyEnd]))
                      \/ (HasBody(u) /\ \E i \in (pos[u.bodyStart] + 1)..(pos[u.bodyEnd] - 1) : ~Inside(tok[i].scope, u.id, Len(a.scopes)))}}
 
-      (* VarDeclUse: a token that refers to a variable carries a variable id, and one id never names two         *)
-      (* variables.  All tokens of one variable carry the id of its declaration (the id of the name token),      *)
-      (* except member accesses "x . m": there cppcheck deliberately numbers every (object, member) pair with an *)
-      (* id of its own (Tokenizer::setVarIdStructMembers), so only "one id, one variable" is demanded of them.   *)
+      (* VarDeclUse: a token that refers to a variable carries a variable id, and tokens with the same id refer   *)
+      (* to the same variable.  All tokens of one variable carry the id of its declaration (the id of the name   *)
+      (* token), except member accesses "x . m": there cppcheck deliberately numbers every (object, member) pair *)
+      (* with an id of its own (Tokenizer::setVarIdStructMembers).  NOT demanded: that two <var> elements never  *)
+      (* share the id of their name tokens - invalid code that cppcheck accepts ("int f(int p, int p)") yields   *)
+      (* two variables for one id, and all tokens then refer to one of them.                                     *)
       withVar == {i \in DOMAIN tok : ~Null(tok[i].variable)}
       uses    == {<<tok[i].variable, tok[i].varId>> : i \in withVar}
       direct  == {<<tok[i].variable, tok[i].varId>> : i \in {k \in withVar : k = 1 \/ tok[k-1].str # "."}}
@@ -170,8 +172,8 @@ Judge(a) ==
         IF \E p \in uses : p[2] <= 0 THEN {"token with a variable but without varId: variable " \o (CHOOSE p \in uses : p[2] <= 0)[1]}
         ELSE IF Cardinality({p[1] : p \in direct \cup declNz}) # Cardinality(direct \cup declNz)
              THEN {"one variable, two variable ids: " \o (CHOOSE p \in direct \cup declNz : \E q \in direct \cup declNz : q[1] = p[1] /\ q[2] # p[2])[1]}
-        ELSE IF Cardinality({p[2] : p \in uses \cup declNz}) # Cardinality(uses \cup declNz)
-             THEN {"one variable id, two variables: " \o ToString((CHOOSE p \in uses \cup declNz : \E q \in uses \cup declNz : q[2] = p[2] /\ q[1] # p[1])[2])}
+        ELSE IF Cardinality({p[2] : p \in uses}) # Cardinality(uses)
+             THEN {"one variable id, two variables: " \o ToString((CHOOSE p \in uses : \E q \in uses : q[2] = p[2] /\ q[1] # p[1])[2])}
         ELSE {}
   IN  [IdsUnique |-> IdsUnique, RefsResolve |-> RefsResolve, LinksSymmetric |-> LinksSymmetric, LinksNested |-> LinksNested,
        AstForest |-> AstForest, ScopeTree |-> ScopeTree, VarDeclUse |-> VarDeclUse]
